@@ -3,6 +3,9 @@
 package main
 
 import (
+	"fmt"
+	"runtime"
+
 	"github.com/NethermindEth/juno/core"
 	"github.com/NethermindEth/juno/core/felt"
 	"verif/harness/lib"
@@ -19,7 +22,12 @@ func (e *Engine) genDesc() *Desc {
 	}
 	version := versions[e.verIdx]
 	prev := e.g.HeadState()
-	diff, _ := e.g.GenDiff(prev, uint64(e.g.Height()), version)
+	var diff *core.StateDiff
+	if e.cfg.Univ == "" {
+		diff, _ = e.g.GenDiff(prev, uint64(e.g.Height()), version)
+	} else {
+		diff = e.genDiffOn(prev)
+	}
 	classes := map[felt.Felt]core.ClassDefinition{}
 	if e.cfg.AllowDrain {
 		// make drains frequent: write zero to a slot of a system contract that is currently set
@@ -134,6 +142,86 @@ func (e *Engine) genDesc() *Desc {
 	return &Desc{Version: version, Diff: diff, Classes: classes}
 }
 
+// genDiffOn draws the contract part of a well-formed state diff over the universe of THIS history
+// (harness/lib's GenDiff is tied to its own address table): deploys of ordinary addresses, class
+// replacements and nonce bumps of deployed contracts, storage writes (zero, same value, 1..5) to
+// deployed contracts and now and then to the system contracts (non-zero only: see GenOptions.SystemDrain).
+func (e *Engine) genDiffOn(s *lib.AbsState) *core.StateDiff {
+	r := e.g.R
+	d := emptyDiff()
+	if r.Chance(e.g.Opt.EmptyDiffs, 100) {
+		return d
+	}
+	sys, ord := e.u.Addrs[:2], e.u.Addrs[2:len(e.u.Addrs)-1]
+	n := e.g.Opt.DiffSize
+	deployedNow := map[felt.Felt]bool{}
+	for i := r.Intn(n + 1); i > 0; i-- {
+		a := ord[r.Intn(len(ord))]
+		if s.Deployed[a] || deployedNow[a] {
+			continue
+		}
+		ch := e.g.ClassHash(r.Intn(3))
+		d.DeployedContracts[a] = &ch
+		deployedNow[a] = true
+	}
+	var deployed []felt.Felt
+	for _, a := range ord {
+		if s.Deployed[a] || deployedNow[a] {
+			deployed = append(deployed, a)
+		}
+	}
+	if len(deployed) > 0 {
+		for i := r.Intn(2); i > 0; i-- {
+			a := lib.Pick(r, deployed)
+			if deployedNow[a] {
+				continue
+			}
+			ch := e.g.ClassHash(r.Intn(4))
+			d.ReplacedClasses[a] = &ch
+		}
+		for i := r.Intn(n + 1); i > 0; i-- {
+			a := lib.Pick(r, deployed)
+			cur := felt.Zero
+			if c, ok := s.Contracts[a]; ok {
+				cur = c.Nonce
+			}
+			d.Nonces[a] = new(felt.Felt).Add(&cur, lib.F(uint64(1+r.Intn(2))))
+		}
+	}
+	targets := append([]felt.Felt{}, deployed...)
+	if r.Chance(1, 3) {
+		targets = append(targets, sys[r.Intn(2)])
+	}
+	if len(targets) > 0 {
+		for i := r.Intn(n + 2); i > 0; i-- {
+			a := lib.Pick(r, targets)
+			k := e.u.Slots[r.Intn(len(e.u.Slots))]
+			choice := r.Intn(6)
+			if isSystem(&a) {
+				choice = 2 + r.Intn(4)
+			}
+			var v *felt.Felt
+			switch choice {
+			case 0:
+				v = lib.F(0)
+			case 1:
+				cv := felt.Zero
+				if c, ok := s.Contracts[a]; ok {
+					cv = c.Storage[k]
+				}
+				v = &cv
+			default:
+				v = lib.F(uint64(1 + r.Intn(5)))
+			}
+			if d.StorageDiffs[a] == nil {
+				d.StorageDiffs[a] = map[felt.Felt]*felt.Felt{}
+			}
+			d.StorageDiffs[a][k] = v
+		}
+	}
+	return d
+}
+
 // describe counts the features of a diff in the distribution histogram.
 func (e *Engine) describe(d *Desc) {
 	prev := e.g.HeadState()
@@ -142,6 +230,23 @@ func (e *Engine) describe(d *Desc) {
 		e.hit("block:empty-diff")
 	}
 	e.res.HitN("diff:deploy", len(df.DeployedContracts))
+	e.describeBoundary(prev, df)
+	touched := map[felt.Felt]bool{}
+	for a := range df.StorageDiffs {
+		touched[a] = true
+	}
+	for a := range df.DeployedContracts {
+		touched[a] = true
+	}
+	for a := range df.Nonces {
+		touched[a] = true
+	}
+	for a := range df.ReplacedClasses {
+		touched[a] = true
+	}
+	if len(touched) > runtime.GOMAXPROCS(0) {
+		e.hit(fmt.Sprintf("block:touches-more-contracts-than-GOMAXPROCS(%d)", runtime.GOMAXPROCS(0)))
+	}
 	e.res.HitN("diff:replace-class", len(df.ReplacedClasses))
 	e.res.HitN("diff:nonce", len(df.Nonces))
 	e.res.HitN("diff:declare-cairo0", len(df.DeclaredV0Classes))
@@ -241,5 +346,37 @@ func (e *Engine) RandomHistory(steps, maxHeight int) {
 		}
 		justReverted = false
 		e.CheckAll()
+	}
+}
+
+// endsInFF: the big-endian bytes of the felt end in 0xff.
+func endsInFF(f *felt.Felt) bool { b := f.Bytes(); return b[31] == 0xff }
+
+// describeBoundary counts the shapes the byte-boundary universe is there for.
+func (e *Engine) describeBoundary(prev *lib.AbsState, df *core.StateDiff) {
+	one := lib.F(1)
+	for a := range df.DeployedContracts {
+		if !endsInFF(&a) {
+			continue
+		}
+		e.hit("ff:deploy-of-an-address-ending-in-0xff")
+		up := new(felt.Felt).Add(&a, one)
+		if c, ok := prev.Contracts[*up]; ok && prev.Deployed[*up] && len(c.Storage) > 0 {
+			e.hit("ff:deploy-of-an-address-ending-in-0xff-below-a-contract-with-storage")
+		}
+	}
+	for a, inner := range df.StorageDiffs {
+		for k := range inner {
+			if endsInFF(&k) {
+				e.hit("ff:write-to-a-slot-ending-in-0xff")
+				up := new(felt.Felt).Add(&k, one)
+				if _, both := inner[*up]; both {
+					e.hit("ff:write-to-a-slot-ending-in-0xff-and-to-the-slot-above-it")
+				}
+			}
+		}
+		if endsInFF(&a) {
+			e.hit("ff:storage-of-an-address-ending-in-0xff")
+		}
 	}
 }
